@@ -4,11 +4,13 @@
 use crate::case::{elems_of, Case, Eff};
 use crate::schediter::SchedIter;
 use crate::source::{make_toks, LogIter};
-use crate::tok::Tok;
+use crate::tok::{Cp, Item, Tok, GEN_SHIFT};
 use crate::visit::TermResult;
 use orx_concurrent_iter::{ConIterOfIter, ConIterOfRange, ConIterOfSlice, ConIterOfVec, IntoConcurrentIter, IterIntoConcurrentIter};
 use orx_parallel::verif::{par_from_con_iter, ParEmpty};
-use orx_parallel::{AsPar, IntoPar, IterIntoPar};
+use orx_parallel::{AsPar, IntoPar, IterIntoPar, Par, ParIntoCloned, ParIntoCopied};
+use orx_concurrent_iter::{ConcurrentIterable, IntoCloned};
+use std::collections::{BTreeMap, HashMap};
 use std::collections::{BTreeSet, BinaryHeap, HashSet, LinkedList, VecDeque};
 
 pub type R = TermResult;
@@ -179,6 +181,114 @@ pub fn phash(case: &Case, eff: &mut Eff, f: impl FnOnce(ParEmpty<<HashSet<Tok> a
 pub fn phashref(case: &Case, eff: &mut Eff, f: impl for<'a> FnOnce(ParEmpty<<HashSet<Tok> as AsPar<'a, Tok>>::ConIter>) -> R) -> R {
     let d: HashSet<Tok> = make_toks(&case.input).into_iter().collect();
     *eff = d.iter().map(|t| (t.id, t.slot)).collect();
+    let r = f(d.par());
+    drop(d);
+    r
+}
+
+// ---- adaptors that return an opaque `impl Par`: the continuation is a generic visitor ----
+
+pub trait ParK {
+    fn call<P: Par>(self, p: P) -> R
+    where
+        P::Item: Item;
+}
+
+fn make_cps(input: &[u8]) -> Vec<Cp> {
+    (0..input.len())
+        .map(|p| {
+            let (id, slot) = crate::source::src_elem(input, p);
+            Cp::new(id, slot)
+        })
+        .collect()
+}
+
+/// elements as the pipeline sees them after exactly one `Clone::clone`
+fn cloned_elems(input: &[u8]) -> Eff {
+    elems_of(input).into_iter().map(|(id, slot)| (id + (1u64 << GEN_SHIFT), slot)).collect()
+}
+
+pub fn pclonedad(case: &Case, eff: &mut Eff, k: impl ParK) -> R {
+    *eff = cloned_elems(&case.input);
+    let v = make_cps(&case.input);
+    let r = k.call(v.par().cloned());
+    drop(v);
+    r
+}
+
+pub fn pcopiedad(case: &Case, eff: &mut Eff, k: impl ParK) -> R {
+    *eff = elems_of(&case.input);
+    let v: Vec<usize> = (1..case.input.len() + 1).collect();
+    let r = k.call(v.par().copied());
+    drop(v);
+    r
+}
+
+pub fn pclonedit(case: &Case, eff: &mut Eff, k: impl ParK) -> R {
+    *eff = cloned_elems(&case.input);
+    let v = make_cps(&case.input);
+    let r = k.call(v.con_iter().cloned().into_par());
+    drop(v);
+    r
+}
+
+// ---- concurrent iterators handed to into_par() / par() directly ----
+
+pub fn pconvec(case: &Case, eff: &mut Eff, f: impl FnOnce(ParEmpty<ConIterOfVec<Tok>>) -> R) -> R {
+    *eff = elems_of(&case.input);
+    f(make_toks(&case.input).into_con_iter().into_par())
+}
+
+pub fn pconslice(case: &Case, eff: &mut Eff, f: impl for<'a> FnOnce(ParEmpty<ConIterOfSlice<'a, Tok>>) -> R) -> R {
+    *eff = elems_of(&case.input);
+    let v = make_toks(&case.input);
+    let r = f(v.as_slice().into_con_iter().into_par());
+    drop(v);
+    r
+}
+
+pub fn pconrange(case: &Case, eff: &mut Eff, f: impl FnOnce(ParEmpty<ConIterOfRange<usize>>) -> R) -> R {
+    *eff = elems_of(&case.input);
+    f(IntoConcurrentIter::into_con_iter(1usize..case.input.len() + 1).into_par())
+}
+
+pub fn pconiter(case: &Case, eff: &mut Eff, f: impl FnOnce(ParEmpty<ConIterOfIter<Tok, LogIter>>) -> R) -> R {
+    *eff = elems_of_iter(case);
+    let it = LogIter::new(&case.input, case.known, case.endless);
+    f(IntoPar::into_par(IterIntoConcurrentIter::into_con_iter(it)))
+}
+
+pub fn pconiterpar(case: &Case, eff: &mut Eff, f: impl FnOnce(ParEmpty<ConIterOfIter<Tok, LogIter>>) -> R) -> R {
+    *eff = elems_of_iter(case);
+    let it = LogIter::new(&case.input, case.known, case.endless);
+    f(IterIntoPar::par(IterIntoConcurrentIter::into_con_iter(it)))
+}
+
+// ---- map collections ----
+
+pub fn pbtreemap(case: &Case, eff: &mut Eff, f: impl FnOnce(ParEmpty<<BTreeMap<u8, Tok> as IntoPar>::ConIter>) -> R) -> R {
+    let d: BTreeMap<u8, Tok> = make_toks(&case.input).into_iter().enumerate().map(|(i, t)| (i as u8, t)).collect();
+    *eff = d.iter().map(|(_, t)| (t.id, t.slot)).collect();
+    f(d.into_par())
+}
+
+pub fn pbtreemapref(case: &Case, eff: &mut Eff, f: impl for<'a> FnOnce(ParEmpty<<BTreeMap<u8, Tok> as AsPar<'a, (u8, Tok)>>::ConIter>) -> R) -> R {
+    let d: BTreeMap<u8, Tok> = make_toks(&case.input).into_iter().enumerate().map(|(i, t)| (i as u8, t)).collect();
+    *eff = d.iter().map(|(_, t)| (t.id, t.slot)).collect();
+    let r = f(d.par());
+    drop(d);
+    r
+}
+
+pub fn phashmap(case: &Case, eff: &mut Eff, f: impl FnOnce(ParEmpty<<HashMap<u8, Tok> as IntoPar>::ConIter>) -> R) -> R {
+    let d: HashMap<u8, Tok> = make_toks(&case.input).into_iter().enumerate().map(|(i, t)| (i as u8, t)).collect();
+    *eff = d.iter().map(|(_, t)| (t.id, t.slot)).collect();
+    f(d.into_par())
+}
+
+pub fn phashmapref(case: &Case, eff: &mut Eff, f: impl for<'a> FnOnce(ParEmpty<<HashMap<u8, Tok> as AsPar<'a, (u8, Tok)>>::ConIter>) -> R) -> R {
+    let d: HashMap<u8, Tok> = make_toks(&case.input).into_iter().enumerate().map(|(i, t)| (i as u8, t)).collect();
+    *eff = d.iter().map(|(_, t)| (t.id, t.slot)).collect();
     let r = f(d.par());
     drop(d);
     r
